@@ -284,6 +284,15 @@ func (st *hubState) apply(op []string, o *hx.Out) {
 			case <-time.After(500 * time.Millisecond):
 				return "blocks"
 			}
+		case "q-recv-done": // Receive with a context that is already done: it may take a message or not, but never lose one
+			ctx, cf := context.WithCancel(context.Background())
+			cf()
+			got := ""
+			err := st.q.Receive(ctx, func(m p2p.Message[memswarm.Addr]) { got = fmt.Sprintf("got=%d:%d", m.Src.N, len(m.Payload)) })
+			if err == nil {
+				return "nil " + got + " " + st.qObs()
+			}
+			return errStr(err) + " " + st.qObs()
 		case "q-cancel":
 			p := st.qparts[atoi(op[1])]
 			p.cancel()
@@ -428,8 +437,10 @@ func queueScenario(r *rand.Rand, exec func(op string) string) {
 		case x == 10 && len(waiting) > 0:
 			exec(fmt.Sprintf("q-cancel %d", waiting[0]))
 			waiting = waiting[1:]
-		case x == 11:
+		case x == 11 && r.Intn(2) == 0:
 			exec("q-purge")
+		case x == 11 && len(waiting) == 0:
+			exec("q-recv-done")
 		case x == 12 && len(inCb) == 0 && r.Intn(2) == 0:
 			exec("q-close")
 			closed = true
@@ -618,7 +629,29 @@ func queueOracleCase(r *rand.Rand) string {
 	}
 	var closeReturned atomic.Bool
 	var wg sync.WaitGroup
+	var accepted, seenCb atomic.Int64
 	nrecv, np := r.Intn(4), 1+r.Intn(4)
+	// receivers whose context is already done or ends at any moment: they may or may not take a message, but a
+	// message the queue accepted is seen by exactly one callback, or is still queued (C13)
+	for i := 0; i < 1+r.Intn(3); i++ {
+		wg.Add(1)
+		go func() {
+			defer wg.Done()
+			for k := 0; k < 30; k++ {
+				ctx, cf := context.WithCancel(context.Background())
+				if k%2 == 0 {
+					cf()
+				} else {
+					time.AfterFunc(time.Duration(k)*10*time.Microsecond, cf)
+				}
+				err := q.Receive(ctx, func(m p2p.Message[memswarm.Addr]) { seenCb.Add(1) })
+				cf()
+				if err != nil && p2p.IsErrClosed(err) {
+					return
+				}
+			}
+		}()
+	}
 	for i := 0; i < nrecv; i++ {
 		wg.Add(1)
 		go func() {
@@ -627,6 +660,7 @@ func queueOracleCase(r *rand.Rand) string {
 				saw := false
 				err := q.Receive(context.Background(), func(m p2p.Message[memswarm.Addr]) {
 					saw = true
+					seenCb.Add(1)
 					if closeReturned.Load() {
 						bad("queue callback started after Close had returned")
 					}
@@ -647,7 +681,9 @@ func queueOracleCase(r *rand.Rand) string {
 		go func() {
 			defer wg.Done()
 			for k := 0; k < 10; k++ {
-				q.Deliver(p2p.Message[memswarm.Addr]{Src: memswarm.Addr{N: j*100 + k}, Payload: []byte{byte(k)}})
+				if q.Deliver(p2p.Message[memswarm.Addr]{Src: memswarm.Addr{N: j*100 + k}, Payload: []byte{byte(k)}}) {
+					accepted.Add(1)
+				}
 				if k%3 == 2 {
 					time.Sleep(50 * time.Microsecond)
 				}
@@ -655,6 +691,17 @@ func queueOracleCase(r *rand.Rand) string {
 		}()
 	}
 	time.Sleep(time.Duration(r.Intn(800)) * time.Microsecond)
+	if r.Intn(2) == 0 { // let everybody finish first and account for every accepted message
+		pw := make(chan struct{})
+		go func() { wg.Wait(); close(pw) }()
+		select {
+		case <-pw:
+			if a, s, l := accepted.Load(), seenCb.Load(), int64(q.Len()); a != s+l {
+				return fmt.Sprintf("C13 queue: %d messages were accepted by Deliver, %d were seen by a callback and %d are still queued: %d were lost (receivers with contexts that end at any moment; cap=%d)", a, s, l, a-s-l, capN)
+			}
+		case <-time.After(2 * time.Second):
+		}
+	}
 	cd := make(chan struct{})
 	go func() { q.Close(); close(cd) }()
 	select {
@@ -672,10 +719,10 @@ func queueOracleCase(r *rand.Rand) string {
 	}
 	// afterwards
 	late := 1 + r.Intn(2*capN+2)
-	accepted := 0
+	lateAccepted := 0
 	for k := 0; k < late; k++ {
 		if q.Deliver(p2p.Message[memswarm.Addr]{Src: memswarm.Addr{N: 9000 + k}, Payload: []byte{1}}) {
-			accepted++
+			lateAccepted++
 		}
 	}
 	for k := 0; k < 6; k++ {
@@ -687,10 +734,10 @@ func queueOracleCase(r *rand.Rand) string {
 		select {
 		case err := <-done:
 			if ran {
-				bad("a message (of %d delivered late, %d accepted) reached a Receive callback after Close had returned", late, accepted)
+				bad("a message (of %d delivered late, %d accepted) reached a Receive callback after Close had returned", late, lateAccepted)
 			}
 			if err == nil {
-				bad("queue Receive after Close returned nil (%d late Delivers, %d accepted)", late, accepted)
+				bad("queue Receive after Close returned nil (%d late Delivers, %d accepted)", late, lateAccepted)
 			}
 		case <-time.After(time.Second):
 			bad("queue Receive after Close blocks")
